@@ -452,6 +452,33 @@ class E(cohdl.Entity):
             self.o <<= st == Col.done
             st.next = Col.busy if self.a else Col.idle
 """, clk_ok=True)
+# two REVISIONS of one design file: same module name, class names, function names and line layout, different bodies
+# (a regenerated design.py / a re-run notebook cell): anything cached per definition site must not survive
+REV = """
+class Helper:
+    def __init__(self, a, b):
+        self.a = a
+        self.b = b
+    def value(self):
+        return self.a %s self.b
+def combine(x, y):
+    return x %s y
+class E(cohdl.Entity):
+    a = Port.input(Bit)
+    b = Port.input(Bit)
+    o = Port.output(Bit)
+    p = Port.output(Bit)
+    q = Port.output(Bit)
+    def architecture(self):
+        @std.concurrent
+        def logic():
+            self.o <<= self.a %s self.b
+            self.p <<= combine(self.a, self.b)
+            self.q <<= Helper(self.a, self.b).value()
+"""
+D("a_rev1", REV % ("&", "&", "&"))
+D("a_rev2", REV % ("|", "^", "|"))
+MODNAME = {"a_rev1": "rev", "a_rev2": "rev"}
 D("a_named_like_literals", """
 class E(cohdl.Entity):
     clk = Port.input(Bit)
@@ -944,7 +971,7 @@ class Runner:
         self.dir = os.path.join(ck.gen, "work")
         shutil.rmtree(self.dir, ignore_errors=True)
         os.makedirs(self.dir, exist_ok=True)
-        self.pool = {k: {"source": v["source"], "entity": v["entity"]} for k, v in POOL.items()}
+        self.pool = {k: {"source": v["source"], "entity": v["entity"], "modname": MODNAME.get(k, k)} for k, v in POOL.items()}
         self.compiles = 0
         self.base = None
         self.tree = None
@@ -1060,6 +1087,8 @@ def minimise_all(runner, fresh_of, items):
 # regression histories: one group per mechanism that used to poison the interpreter (repaired by the fix: commits
 # 73c9e08 72ebcaa 215d68c 5bdcba1 36732b7; Examples C11_before_fixes_* / C11_current_regressions in the Props file)
 CORPUS = [
+    # two revisions of one design file under the same module name (same definition sites, different bodies)
+    ["a_rev1", "a_rev2"], ["a_rev2", "a_comb", "a_rev1", "a_rev2"],
     # (i) statemachine singleton
     ["r_sm_continue", "a_coro"],
     ["a_coro", "r_sm_continue", "a_comb", "a_coro", "a_sub_coro"],
